@@ -165,6 +165,7 @@ where
         P: consensus::Parameters + Send + 'static,
         IvkTag: Copy + Send + 'static,
     {
+        check_block_encoding(&block)?;
         let block_hash = block.hash();
         let block_height = block.height();
         let zip212_enforcement = zip212_enforcement(params, block_height);
@@ -235,6 +236,22 @@ where
     }
 }
 
+/// Checks that the fields of a compact block that the accessors used below decode by panicking
+/// (the height, and the block, parent and transaction hashes) are well formed, so that a
+/// malformed block is reported as a [`ScanError`] rather than aborting the scan.
+fn check_block_encoding(block: &CompactBlock) -> Result<(), ScanError> {
+    let height = u32::try_from(block.height).ok();
+    let hashes_ok =
+        block.header().is_some() || (block.hash.len() == 32 && block.prev_hash.len() == 32);
+    if height.is_some() && hashes_ok && block.vtx.iter().all(|tx| tx.txid.len() == 32) {
+        Ok(())
+    } else {
+        Err(ScanError::BlockEncodingInvalid {
+            at_height: BlockHeight::from_u32(height.unwrap_or(u32::MAX)),
+        })
+    }
+}
+
 #[tracing::instrument(skip_all, fields(height = block.height))]
 pub(crate) fn scan_block_with_runners<P, AccountId, IvkTag, TS, TO, TI>(
     params: &P,
@@ -279,6 +296,8 @@ where
 
         None
     }
+
+    check_block_encoding(&block)?;
 
     if let Some(scan_error) = check_hash_continuity(&block, prior_block_metadata) {
         return Err(scan_error);
